@@ -31,6 +31,10 @@ CLAIMED = {
    "Decided for all inputs: date similarity equals the documented parabola of the distance in years (value contract on DateRange.Similarity over the Years contract of C05), lies in [0,1], is symmetric, 1 at distance 0, 0 beyond maxYears and non-increasing in the distance (lemmas, nonlinear real arithmetic); missing dates score exactly 0.5; the weighted surrounding similarity is in [0,1] for components in [0,1] and non-negative weights summing to 1, and 1 on identity; the default options have non-negative weights summing to 1 (within 1e-12) and a Jaro prefix size <= 10. Not decided yet: Jaro/JaroWinkler bounds, individual and list similarity.",
    "float64 = Real (no rounding, no NaN); DateNode.DateRange is opaque (trusted contract: writes only its two cache fields).",
    TECH, "DESIGN.md section 8 C12"),
+ "C13": ("other",
+   "Decided: half (a) of the property - every read-only operation it names (Warnings, String/GEDCOMString, Individuals, Families, NodeByPointer, Places, Sources, NodesWithTag(Path), all IndividualNode and FamilyNode read accessors, Similarity, SurroundingSimilarity, IndividualNodes.Compare incl. its goroutine bodies, CompareNodes, DeepCopy/Filter/Flatten into another document) may write no ABSTRACT field (tag, value, pointer, children, node lists, document links) of any pre-existing object: frame contracts checked against effect summaries of the real SSA, 60+ functions. Document.Warnings violated it and was repaired (fix: commit, canary kept). Not decided yet: half (b), coherence of the cached views after edits.",
+   "Frame engine as for C07 (sound may-write analysis; refutations without input). Reads performed through reflection in package q are not covered. The induction over histories (each operation preserves 'abstract state unchanged') is the standard argument, not machine-checked.",
+   TECH, "DESIGN.md section 8 C13"),
 }
 
 NOT_APPLICABLE = {pid: PENDING for pid in ["C%02d" % i for i in range(1, 21)] if pid not in CLAIMED}
